@@ -29,6 +29,9 @@ use vcore::recstore::RecStore;
 use vcore::{Rng, Run, Stats, json};
 
 const OTHER_SPACE: &str = "kip:space:other";
+/// The generator class (shared with C18, name kept) that ensures / asserts one brand-new tuple
+/// twice in one block. It is a positive case: both clauses resolve to one Proposition.
+const SAME_TUPLE_TWICE: &str = "tuple_conflict_commit";
 const RESTRICTED: &str = "kip:principal:restricted";
 
 // ---------------------------------------------------------------------------------------------
@@ -149,6 +152,20 @@ fn ctx(case: u64, history: &[Value], stmt: &Stmt, out: &Outcome) -> Value {
            "history": history})
 }
 
+fn is_pending_query(q: &str) -> bool {
+    q.contains("{state: \"pending\"}")
+}
+
+/// The battery queries about state `pending` whose answer moved.
+fn pending_visible(before: &Obs, after: &Obs) -> Vec<String> {
+    after
+        .battery
+        .iter()
+        .filter(|(q, a)| is_pending_query(q) && before.battery.get(*q) != Some(*a))
+        .map(|(q, _)| q.clone())
+        .collect()
+}
+
 /// Refused or dry-run statement: nothing observable may differ (the counter may skip).
 /// Rows left in state `pending` are reported under their own signature (with whether a query
 /// can see them); `collections_changed` / `query_answers_changed` are about everything else.
@@ -157,21 +174,21 @@ fn check_unchanged(before: &Obs, after: &Obs, what: &str, code: &str, st: &mut S
     let class = if code.is_empty() { what.to_string() } else { format!("{what}/{code}") };
     let newp: Vec<String> = pending_ids(&after.scan).difference(&pending_ids(&before.scan)).cloned().collect();
     st.count("oracle_no_pending_left");
-    let is_pending_query = |q: &str| q.contains("{state: \"pending\"}");
     if !newp.is_empty() {
-        let visible: Vec<&String> = after
-            .battery
-            .iter()
-            .filter(|(q, a)| is_pending_query(q) && before.battery.get(*q) != Some(*a))
-            .map(|(q, _)| q)
-            .collect();
-        if !visible.is_empty() {
+        // The property speaks about what "a query, meta command or historical read can
+        // observe". A leftover shell is a violation when a KQL answer shows it (an element
+        // pattern that names `state: "pending"` matches shells of every kind but Proposition);
+        // a shell that only the direct collection scan sees is counted, not asserted.
+        let visible = pending_visible(before, after);
+        if visible.is_empty() {
+            st.count("pending_rows_left_visible_to_the_direct_scan_only(measured)");
+        } else {
             st.count("pending_rows_left_and_visible_to_a_query");
+            report_once(st, &format!("C17/{class}/pending_row_left"), || {
+                json!({"what": "rows in state `pending` remain after the statement returned and a query shows them", "pending": newp,
+                       "queries_that_show_them": visible, "context": ctx()})
+            });
         }
-        report_once(st, &format!("C17/{class}/pending_row_left"), || {
-            json!({"what": "rows in state `pending` remain after the statement returned", "pending": newp,
-                   "queries_that_show_them": visible, "context": ctx()})
-        });
     }
     let new_pending_keys: BTreeSet<String> = newp
         .iter()
@@ -278,7 +295,13 @@ fn check_commit(before: &Obs, after: &Obs, out: &Outcome, max_seq_seen: u64, st:
             Some(ra) => {
                 if ra["state"] == "pending" {
                     if !eb.contains_key(id) {
-                        fail(st, "pending_row_left", json!({"id": id, "row": ra}));
+                        // same rule as for a refused statement: asserted when a query shows it
+                        let visible = pending_visible(before, after);
+                        if visible.is_empty() {
+                            st.count("pending_rows_left_visible_to_the_direct_scan_only(measured)");
+                        } else {
+                            fail(st, "pending_row_left", json!({"id": id, "row": ra, "queries_that_show_them": visible}));
+                        }
                     }
                     continue;
                 }
@@ -384,6 +407,125 @@ fn check_identity(after: &Obs, st: &mut Stats, ctx: &dyn Fn() -> Value) {
             report_once(st, "C17/identity/two_concepts_share_a_key", || json!({"key": format!("{k:?}"), "ids": ids, "context": ctx()}));
         }
     }
+}
+
+/// One `ENSURE PROPOSITION ?h (s, "p", o)` / `ASSERT ?h (s, "p", o) {..}` clause of a generated
+/// statement: (is_assert, handle, subject term, predicate, object term), terms as written.
+fn tuples_named(text: &str) -> Vec<(bool, String, String, String, String)> {
+    let mut out = vec![];
+    for line in text.lines() {
+        let line = line.trim();
+        let (is_assert, rest) = if let Some(r) = line.strip_prefix("ENSURE PROPOSITION ") {
+            (false, r)
+        } else if let Some(r) = line.strip_prefix("ASSERT ") {
+            (true, r)
+        } else {
+            continue;
+        };
+        let (Some(open), Some(close)) = (rest.find('('), rest.find(')')) else { continue };
+        let handle = rest[..open].trim().trim_start_matches('?').to_string();
+        let parts: Vec<&str> = rest[open + 1..close].split(", ").collect();
+        if parts.len() != 3 {
+            continue;
+        }
+        out.push((is_assert, handle, parts[0].to_string(), parts[1].trim_matches('"').to_string(), parts[2].to_string()));
+    }
+    out
+}
+
+/// A term as written -> what it denotes: a parameter's value, or the handle itself (resolved
+/// through the response's handle map when there is one).
+fn denote(term: &str, cmd: &Cmd, handles: Option<&Value>) -> String {
+    if let Some(p) = term.strip_prefix(':') {
+        return cmd.params.get(p).and_then(|v| v.as_str()).unwrap_or(term).to_string();
+    }
+    if let (Some(h), Some(map)) = (term.strip_prefix('?'), handles) {
+        if let Some(id) = map.get(h).and_then(|v| v.as_str()) {
+            return id.to_string();
+        }
+    }
+    term.to_string()
+}
+
+/// "The same proposition tuple always resolves to one element": every clause of a committed
+/// statement that names a tuple - ENSURE or the ASSERT sugar, new tuple or existing - is bound to
+/// one Proposition per tuple, that Proposition carries exactly this tuple, and when the tuple
+/// existed before the statement it is the element that already was there.
+fn check_tuple_resolution(before: &Obs, after: &Obs, stmt: &Stmt, out: &Outcome, st: &mut Stats, ctx: &dyn Fn() -> Value) {
+    let named = tuples_named(&stmt.cmd.text);
+    if named.is_empty() {
+        return;
+    }
+    let handles = out.result.get("handles");
+    let ea = elements(&after.scan);
+    let merged = |id: &str| ea.get(id).map(|r| r["state"] == "merged").unwrap_or(false);
+    let mut groups: BTreeMap<(String, String, String), BTreeSet<String>> = BTreeMap::new();
+    let mut namings: BTreeMap<(String, String, String), usize> = BTreeMap::new();
+    for (is_assert, h, s, p, o) in &named {
+        let (s, o) = (denote(s, &stmt.cmd, handles), denote(o, &stmt.cmd, handles));
+        // a write to a merged Concept is canonicalized to the survivor (documented, §11.3)
+        if merged(&s) || merged(&o) || !s.starts_with("C-") || !o.starts_with("C-") {
+            st.count("tuple_namings_skipped(merged or non-concept endpoint)");
+            continue;
+        }
+        let Some(hid) = handles.and_then(|m| m.get(h)).and_then(|v| v.as_str()) else {
+            report_once(st, "C17/identity/tuple_clause_bound_no_handle", || json!({"handle": h, "context": ctx()}));
+            continue;
+        };
+        let pid = if *is_assert {
+            ea.get(hid).map(|r| r["proposition_id"].as_str().unwrap_or("").to_string()).unwrap_or_default()
+        } else {
+            hid.to_string()
+        };
+        let key = (s.clone(), p.clone(), o.clone());
+        groups.entry(key.clone()).or_default().insert(pid.clone());
+        *namings.entry(key).or_default() += 1;
+        st.count("oracle_tuple_clause_resolves_to_its_tuple");
+        let row_ok = ea.get(&pid).map(|r| {
+            r["state"] != "pending" && r["subject"]["id"] == json!(s) && r["object"]["id"] == json!(o) && local_name(r["predicate_ref"].as_str().unwrap_or("")) == *p
+        });
+        if row_ok != Some(true) {
+            report_once(st, "C17/identity/tuple_clause_resolved_to_another_tuple", || {
+                json!({"what": "the Proposition a clause was bound to does not carry the tuple the clause names",
+                       "clause_handle": h, "named": [s, p, o], "bound": pid, "row": ea.get(&pid), "context": ctx()})
+            });
+        }
+        // the tuple existed before: it is that element
+        let eb = elements(&before.scan);
+        let prior: Vec<&String> = eb
+            .iter()
+            .filter(|(id, r)| id.starts_with("P-") && r["state"] != "pending" && r["space"] == DEFAULT_SPACE)
+            .filter(|(_, r)| r["subject"]["id"] == json!(s) && r["object"]["id"] == json!(o) && local_name(r["predicate_ref"].as_str().unwrap_or("")) == *p)
+            .map(|(id, _)| id)
+            .collect();
+        if let Some(known) = prior.first() {
+            st.count("oracle_existing_tuple_resolves_to_the_existing_element");
+            if **known != pid {
+                report_once(st, "C17/identity/existing_tuple_resolved_to_a_second_element", || {
+                    json!({"named": [s, p, o], "existing": known, "bound": pid, "context": ctx()})
+                });
+            }
+        }
+    }
+    for (key, ids) in &groups {
+        if namings[key] >= 2 {
+            st.count("oracle_same_tuple_twice_in_one_block_resolves_to_one");
+            if ids.len() != 1 {
+                report_once(st, "C17/identity/same_tuple_twice_in_one_block_resolved_to_two_elements", || {
+                    json!({"tuple": key, "elements": ids, "context": ctx()})
+                });
+            }
+        }
+    }
+}
+
+/// Whether a statement names one tuple in two clauses (terms compared as written, parameters by
+/// value): such a statement must not be refused for colliding with itself.
+fn names_a_tuple_twice(stmt: &Stmt) -> bool {
+    let mut seen = BTreeSet::new();
+    tuples_named(&stmt.cmd.text)
+        .into_iter()
+        .any(|(_, _, s, p, o)| !seen.insert((denote(&s, &stmt.cmd, None), p, denote(&o, &stmt.cmd, None))))
 }
 
 // ---------------------------------------------------------------------------------------------
@@ -502,6 +644,7 @@ async fn seq_case_async(case: u64, rng: &mut Rng, st: &mut Stats, n_stmts: usize
                 st.count("stmt_committed_no_effect");
             }
             check_commit(&before, &after, &out, max_seq, st, &cx);
+            check_tuple_resolution(&before, &after, &stmt, &out, st, &cx);
             max_seq = max_seq.max(out.space_seq.unwrap_or(0));
         } else if out.succeeded {
             report_once(st, "C17/succeeded_without_commit_sequence", &cx);
@@ -515,10 +658,20 @@ async fn seq_case_async(case: u64, rng: &mut Rng, st: &mut Stats, n_stmts: usize
                 st.count(&format!("refused_position:{pos}"));
                 st.set("refusal_class_x_position", vcore::fnv_str(&format!("{class}@{pos}")));
             }
+            // two clauses of one block naming one tuple resolve to one element; they do not
+            // collide with each other on the tuple's identity
+            if out.error_code == "IdentityConflict" && out.error_message.contains("tuple") && names_a_tuple_twice(&stmt) {
+                report_once(st, "C17/identity/same_tuple_twice_in_one_block_collides", || {
+                    json!({"what": "a statement naming one proposition tuple in two clauses was refused for an identity conflict with itself", "context": cx()})
+                });
+            }
             check_unchanged(&before, &after, "refused", &out.error_code, st, &cx);
         }
         if let (Some((class, _)), true) = (stmt.fail, out.succeeded && stmt.dry == "none") {
-            st.count(&format!("injected_failure_did_not_refuse:{class}"));
+            // `same_tuple_twice` is not a failure class: it must commit (see check_tuple_resolution)
+            if class != SAME_TUPLE_TWICE {
+                st.count(&format!("injected_failure_did_not_refuse:{class}"));
+            }
         }
         check_identity(&after, st, &cx);
         max_seq = max_seq.max(after.seq);
@@ -848,8 +1001,8 @@ fn main() {
         "C17",
         "exploration",
         "seeded sequences of generated KML statements (multi-clause MUTATE blocks with forward \
-         references, UPSERT/ENSURE hits and misses, guards, 14 injected failure classes at \
-         first/middle/last position, dry runs, retries) against the bundled cognitive-memory \
+         references, UPSERT/ENSURE hits and misses, one tuple named by two clauses, guards, 13 injected failure \
+         classes at first/middle/last position, dry runs, retries) against the bundled cognitive-memory \
          profile; a sequence is non-trivial when it has >= 3 commits and >= 3 refusals with >= 2 \
          error codes (distinct by statement texts)",
     );
@@ -860,7 +1013,7 @@ fn main() {
     run.assume("crash model: each object-store mutation is atomic, the sequence is interruptible anywhere; partial commits at a crash are measured, not asserted (tx.rs documents no write-ahead log)");
     let t = run.tier;
     if run.wants("seq") {
-        run.parallel("seq", t.pick(280, 5000), 0.6, |c, rng, st| seq_case(c, rng, st, t.pick(16, 18)));
+        run.parallel("seq", t.pick(140, 5000), 0.6, |c, rng, st| seq_case(c, rng, st, t.pick(16, 18)));
     }
     if run.wants("spaces") {
         run.parallel("spaces", t.pick(16, 300), 0.2, |c, rng, st| spaces_case(c, rng, st, 24));
@@ -890,8 +1043,13 @@ fn main() {
         run.floor(&format!("refused_position:{p}"), 25);
     }
     for c in FAIL_CLASSES {
-        run.floor(&format!("refused_class:{c}"), 3);
+        if c != SAME_TUPLE_TWICE {
+            run.floor(&format!("refused_class:{c}"), 3);
+        }
     }
+    run.floor("oracle_same_tuple_twice_in_one_block_resolves_to_one", 30);
+    run.floor("oracle_tuple_clause_resolves_to_its_tuple", 300);
+    run.floor("oracle_existing_tuple_resolves_to_the_existing_element", 50);
     for k in ["clause:ensure_hit", "clause:upsert_hit", "clause:upsert_miss", "clause:update_again", "clause:supersede", "clause:merge", "clause:assert_sugar", "retries_of_identical_request"] {
         run.floor(k, 10);
     }
